@@ -396,6 +396,128 @@ def _simplify_not(tree: ast.AST):
     T().visit(tree)
 
 
+def _format_calls_to_fstrings(tree: ast.AST):
+    """'a {} b {}'.format(x, y)  (auto-numbered plain fields, positional arguments only) is the f-string  f'a {x} b {y}'  """
+    import string
+
+    class T(ast.NodeTransformer):
+        def visit_Call(self, n):
+            self.generic_visit(n)
+            if isinstance(n.func, ast.Attribute) and n.func.attr == "format" and isinstance(n.func.value, ast.Constant) and isinstance(n.func.value.value, str) \
+                    and not n.keywords and not any(isinstance(a, ast.Starred) for a in n.args):
+                try:
+                    parts = list(string.Formatter().parse(n.func.value.value))
+                except ValueError:
+                    return n
+                fields = [p for p in parts if p[1] is not None]
+                if len(fields) != len(n.args) or any(p[1] != "" or p[2] or p[3] for p in fields):
+                    return n
+                values, k = [], 0
+                for lit, fld, spec, conv in parts:
+                    if lit:
+                        values.append(ast.Constant(value=lit))
+                    if fld is not None:
+                        values.append(ast.FormattedValue(value=n.args[k], conversion=-1, format_spec=None))
+                        k += 1
+                return ast.copy_location(ast.JoinedStr(values=values), n)
+            return n
+    T().visit(tree)
+
+
+def _hoist_package_imports(tree: ast.AST):
+    """`from .module import Name` statements at the top level of a function body (the package's way around circular imports) are moved to
+    the start of the function: they only bind names, and sitting between two statements they kept `t = E` apart from its use"""
+    for fn in [n for n in ast.walk(tree) if isinstance(n, (ast.FunctionDef, ast.AsyncFunctionDef))]:
+        imps = [s for s in fn.body if isinstance(s, ast.ImportFrom) and s.level > 0]
+        if not imps:
+            continue
+        bound = {(a.asname or a.name) for s in imps for a in s.names}
+        first_use = None
+        for k, s in enumerate(fn.body):
+            if s in imps:
+                continue
+            if any(isinstance(x, ast.Name) and x.id in bound for x in ast.walk(s)):
+                first_use = k
+                break
+        # moving an import before statements that do not mention its names cannot be observed by this function
+        rest = [s for s in fn.body if s not in imps]
+        doc = rest[:1] if rest and isinstance(rest[0], ast.Expr) and isinstance(rest[0].value, ast.Constant) and isinstance(rest[0].value.value, str) else []
+        fn.body = doc + imps + rest[len(doc):]
+
+
+def record_classes(trees) -> Dict[str, List[str]]:
+    """immutable record classes of the package: NamedTuple subclasses (class syntax) -> their fields in order"""
+    out: Dict[str, List[str]] = {}
+    for t in trees:
+        for c in [n for n in ast.walk(t) if isinstance(n, ast.ClassDef)]:
+            if any(ast.unparse(b).split(".")[-1] == "NamedTuple" for b in c.bases):
+                out[c.name] = [s.target.id for s in c.body if isinstance(s, ast.AnnAssign) and isinstance(s.target, ast.Name)]
+    return out
+
+
+def _scalar_replace_records(tree: ast.AST, records: Dict[str, List[str]]):
+    """`t = Record(a, b=c)` (an immutable record of the package built from plain names / constants) whose every use is a field read `t.f`:
+    the field reads are the arguments themselves, the record disappears (a tuple that only carries values between two steps)"""
+    import copy as _copy
+    if not records:
+        return
+    for fn in [n for n in ast.walk(tree) if isinstance(n, (ast.FunctionDef, ast.AsyncFunctionDef))]:
+        for _round in range(4):
+            done = False
+            for node in ast.walk(fn):
+                for fld in ("body", "orelse", "finalbody"):
+                    blk = getattr(node, fld, None)
+                    if not isinstance(blk, list) or not blk or not isinstance(blk[0], ast.stmt):
+                        continue
+                    for k, st in enumerate(blk):
+                        if not (isinstance(st, ast.Assign) and len(st.targets) == 1 and isinstance(st.targets[0], ast.Name) and isinstance(st.value, ast.Call)
+                                and isinstance(st.value.func, ast.Name) and st.value.func.id in records):
+                            continue
+                        t = st.targets[0].id
+                        fields = records[st.value.func.id]
+                        call = st.value
+                        if any(isinstance(a, ast.Starred) for a in call.args) or any(kw.arg is None for kw in call.keywords) or len(call.args) > len(fields):
+                            continue
+                        bound = dict(zip(fields, call.args))
+                        bound.update({kw.arg: kw.value for kw in call.keywords})
+                        if set(bound) != set(fields) or not all(isinstance(v, (ast.Name, ast.Constant)) for v in bound.values()):
+                            continue
+                        stores = sum(1 for x in ast.walk(fn) if isinstance(x, ast.Name) and x.id == t and isinstance(x.ctx, (ast.Store, ast.Del)))
+                        if stores != 1:
+                            continue
+                        rest = blk[k + 1:]
+                        inside = {id(x) for s in rest for x in ast.walk(s)}
+                        uses = [x for x in ast.walk(fn) if isinstance(x, ast.Name) and x.id == t and isinstance(x.ctx, ast.Load)]
+                        attr_uses = [x for x in ast.walk(fn) if isinstance(x, ast.Attribute) and isinstance(x.value, ast.Name) and x.value.id == t and
+                                     isinstance(x.ctx, ast.Load) and x.attr in fields]
+                        if not uses or len(uses) != len(attr_uses) or any(id(x) not in inside for x in uses):
+                            continue
+                        arg_names = {v.id for v in bound.values() if isinstance(v, ast.Name)}
+                        if arg_names & _stored_names(rest):
+                            continue
+
+                        class R(ast.NodeTransformer):
+                            def visit_Attribute(self, n):
+                                self.generic_visit(n)
+                                if isinstance(n.value, ast.Name) and n.value.id == t and isinstance(n.ctx, ast.Load) and n.attr in bound:
+                                    return ast.copy_location(_copy.deepcopy(bound[n.attr]), n)
+                                return n
+                        for s in rest:
+                            R().visit(s)
+                        del blk[k]
+                        if not blk:
+                            blk.append(ast.copy_location(ast.Pass(), st))
+                        done = True
+                        break
+                    if done:
+                        break
+                if done:
+                    break
+            if not done:
+                break
+    ast.fix_missing_locations(tree)
+
+
 def _fold_constants(tree: ast.AST):
     """`A if True else B` -> A, `if True: S else: T` -> S, `not True` -> False (constants appear when a helper called with a literal
     flag is inlined)"""
@@ -1292,7 +1414,7 @@ def _as_load(t: ast.AST) -> ast.AST:
     return t
 
 
-def normalise_tree(tree: ast.AST, computed: Set[str] = frozenset()) -> int:
+def normalise_tree(tree: ast.AST, computed: Set[str] = frozenset(), records: Optional[Dict[str, List[str]]] = None) -> int:
     """In-place canonicalisation applied to every module before any analysis, so that the rules do not depend on incidental syntax:
       * `x: T = v`  becomes  `x = v`  (the annotation is kept on the node as `.ann` for type inference);
       * inert statements are dropped inside functions: docstrings, `pass`, logging calls whose arguments are effect-free.
@@ -1317,6 +1439,9 @@ def normalise_tree(tree: ast.AST, computed: Set[str] = frozenset()) -> int:
                         new.append(st)
                 setattr(node, fld, new)
     _fold_constants(tree)
+    _scalar_replace_records(tree, records or {})
+    _hoist_package_imports(tree)
+    _format_calls_to_fstrings(tree)
     _simplify_not(tree)
     _canonical_comparisons(tree)
     _canonical_statements(tree)
@@ -1380,8 +1505,9 @@ class Model:
             n_inl, log = _inline.inline_module_helpers(m.tree, mname)
             self.inlined += [f"{m.relpath.split('/')[-1]}: {l}" for l in log]
         self.helpers_dropped = _inline.drop_unreferenced_helpers([m.tree for m in self.modules.values()])
+        recs = record_classes([m.tree for m in self.modules.values()])
         for m in self.modules.values():
-            self.inert_removed = getattr(self, "inert_removed", 0) + normalise_tree(m.tree, computed)
+            self.inert_removed = getattr(self, "inert_removed", 0) + normalise_tree(m.tree, computed, recs)
         for m in self.modules.values():
             self._collect_aliases(m)
         for m in self.modules.values():
@@ -1675,6 +1801,13 @@ class Model:
     def fn(self, qualname: str, rule: str = "model") -> FuncInfo:
         f = self.functions.get(qualname)
         if f is None:
+            # a private helper may have moved between "static method of its class" and "module-level function" (or to a base / sibling class):
+            # it is the same anchor when exactly one function of that name exists in the package
+            bare = qualname.split(".")[-1]
+            if bare.startswith("_") and not bare.startswith("__"):
+                same = [g for q, g in self.functions.items() if g.name == bare and not isinstance(g.node, ast.Lambda) and "<locals>" not in q]
+                if len(same) == 1:
+                    return same[0]
             raise AnalysisError(rule, f"anchor function {qualname} not found in the package")
         return f
 
